@@ -62,3 +62,18 @@ func AsScript(src string) string {
 	}
 	return strings.Join(out, "\n")
 }
+
+// AsClosures rewrites a generated program so that everything lives in main: the top-level
+// functions become function literals held in variables (and so are called through their
+// value, possibly from other function literals that capture them), the package-level
+// variables become variables of main. It is still a Go program: gc is its reference.
+func AsClosures(src string) string {
+	body := AsScript(src)
+	lines := strings.Split(body, "\n")
+	for i, l := range lines {
+		if l != "" {
+			lines[i] = "\t" + l
+		}
+	}
+	return "package main\n\nfunc main() {\n" + strings.Join(lines, "\n") + "\n}\n"
+}
